@@ -110,7 +110,7 @@ def gen_e1(tape, tier="quick", *, allow_pull=True, allow_cycles=True, allow_dela
            allow_omission=True, allow_finish=False, allow_offsets=True, allow_faults=True,
            allow_delay=True, allow_buffering=True, allow_integrating=True, max_sim=5,
            cycle_regime=None, pull_fanout=True, cycle_chance=(1, 3), adapter_fanout=True, allow_sinks=True, allow_static=True, allow_real=True, sorted_diamond=False,
-           allow_adaptive=True):
+           allow_adaptive=True, real_chance=(1, 3), cb_nopull_chance=(1, 3)):
     n_sim = tape.weighted([(2, 5), (3, 6), (4, 3), (5, 2)])
     n_sim = min(n_sim, max_sim)
     n_pull = tape.weighted([(0, 6), (1, 3), (2, 1)]) if allow_pull else 0
@@ -142,6 +142,8 @@ def gen_e1(tape, tier="quick", *, allow_pull=True, allow_cycles=True, allow_dela
             o["base"] += 0.5
         if c["kind"] == "sim":
             o["inc"] = tape.choice([1, 1, 2, 5])
+            if tape.chance(1, 6):
+                o["plateau"] = tape.choice([3, 4, 6])      # stretches of equal consecutive publications
         c["outputs"].append(o)
         return len(c["outputs"]) - 1
 
@@ -470,7 +472,7 @@ def gen_e1(tape, tier="quick", *, allow_pull=True, allow_cycles=True, allow_dela
                     any(i.get("dup") or i.get("skip") or i.get("static") or i.get("info_at_init") is False
                         for i in c["inputs"]):
                 continue
-            if not tape.chance(1, 3):
+            if not tape.chance(*real_chance):
                 continue
             if c["inputs"] and c["outputs"]:
                 if cycles:
@@ -485,7 +487,7 @@ def gen_e1(tape, tier="quick", *, allow_pull=True, allow_cycles=True, allow_dela
             for i in c["inputs"]:
                 i["initial_pull"] = True
             c["impl"] = impl
-            if impl == "cbcomp" and tape.chance(1, 3):
+            if impl == "cbcomp" and tape.chance(*cb_nopull_chance):
                 # the documented variant without initial pulls: the model is evaluated once, without inputs, while
                 # connecting
                 c["cb_initial_pull"] = False
